@@ -25,6 +25,9 @@ func run(c *hlib.Ctx) {
 	runCast(c)
 	runImages(c)
 	runLit(c)
+	runImageOps(c)
+	runBounce(c)
+	runBPT(c)
 }
 
 func hex3(v model3d.Coord3D) string {
